@@ -460,9 +460,11 @@ func (cc *checkCtx) report(obs []*Obligation, reports []*FuncReport, writeBaseli
 	if writeBaseline {
 		cc.writeBaseline(okNames, badNames)
 	}
-	// bounded stand-in: always in the thorough tier; in the quick tier when something is undecided
+	// bounded stand-in: in both tiers (the stand-ins take a few seconds).  It exercises what no contract
+	// reaches - the reflective re-assembly of decoded values - on the real code; its cases are labelled
+	// bounded in the evidence and are never counted as discharged obligations.
 	var standins []interface{}
-	if cc.tier == "thorough" || len(undec) > 0 || os.Getenv("GOVC_FORCE_STANDIN") != "" {
+	if os.Getenv("GOVC_NO_STANDIN") == "" {
 		sr := cc.runStandin()
 		if sr.Ran {
 			standins = append(standins, sr)
@@ -487,7 +489,7 @@ func (cc *checkCtx) report(obs []*Obligation, reports []*FuncReport, writeBaseli
 				}
 				cc.violations++
 				path := filepath.Join(cc.outDir, "replays", sanitize(fmt.Sprintf("%s-standin-%d", cc.prop, i))+".txt")
-				os.WriteFile(path, []byte(fmt.Sprintf("property: %s\nbounded stand-in case failed on the real code: %s\nrerun: /verif/tools_standin.sh %s %d\n", cc.prop, fl, cc.prop, cc.seed)), 0o644)
+				os.WriteFile(path, []byte(fmt.Sprintf("property: %s\nbounded stand-in case failed on the real code: %s\nrerun: /verif/tools_standin.sh %s %d\n%s\n", cc.prop, fl, cc.prop, cc.seed, sr.Crash)), 0o644)
 				fmt.Printf("VIOLATION property=%s replay=%s obligation=standin:%s\n", cc.prop, path, strings.SplitN(fl, " :: ", 2)[0])
 			}
 		}
